@@ -1,3 +1,4 @@
+import codecs
 import io
 import logging
 import re
@@ -308,6 +309,19 @@ class PDFConverter(PDFLayoutAnalyzer, Generic[IOType]):
         self.outfp: IOType = outfp
         self.codec = codec
         self.outfp_binary = self._is_binary_stream(self.outfp)
+        self._encoder: Optional[codecs.IncrementalEncoder] = None
+
+    def _encode(self, text: str, errors: str = "strict") -> bytes:
+        """Encode text for a binary output stream.
+
+        The output is written piece by piece. An incremental encoder keeps its
+        state between the pieces, so that a codec with a byte order mark
+        (utf-16, utf-32, utf-8-sig) writes the mark only once.
+        """
+        if self._encoder is None:
+            encoder_class = codecs.getincrementalencoder(self.codec or "utf-8")
+            self._encoder = encoder_class(errors)
+        return self._encoder.encode(text)
 
     @staticmethod
     def _is_binary_stream(outfp: AnyIO) -> bool:
@@ -343,8 +357,7 @@ class TextConverter(PDFConverter[AnyIO]):
     def write_text(self, text: str) -> None:
         text = utils.compatible_encode_method(text, self.codec, "ignore")
         if self.outfp_binary:
-            data = text.encode(self.codec or "utf-8", "ignore")
-            cast(BinaryIO, self.outfp).write(data)
+            cast(BinaryIO, self.outfp).write(self._encode(text, "ignore"))
         else:
             cast(TextIO, self.outfp).write(text)
 
@@ -454,7 +467,7 @@ class HTMLConverter(PDFConverter[AnyIO]):
 
     def write(self, text: str) -> None:
         if self.codec:
-            cast(BinaryIO, self.outfp).write(text.encode(self.codec))
+            cast(BinaryIO, self.outfp).write(self._encode(text))
         else:
             cast(TextIO, self.outfp).write(text)
 
@@ -731,7 +744,7 @@ class XMLConverter(PDFConverter[AnyIO]):
 
     def write(self, text: str) -> None:
         if self.codec:
-            cast(BinaryIO, self.outfp).write(text.encode(self.codec))
+            cast(BinaryIO, self.outfp).write(self._encode(text))
         else:
             cast(TextIO, self.outfp).write(text)
 
@@ -915,8 +928,7 @@ class HOCRConverter(PDFConverter[AnyIO]):
 
     def write(self, text: str) -> None:
         if self.codec:
-            encoded_text = text.encode(self.codec)
-            cast(BinaryIO, self.outfp).write(encoded_text)
+            cast(BinaryIO, self.outfp).write(self._encode(text))
         else:
             cast(TextIO, self.outfp).write(text)
 
